@@ -88,7 +88,7 @@ pub enum RK {
     SpawnAfter { a: Src, m: S },
     /// spawned by SpawnAfter: notifies the shell with `arg`
     NotifyArg { m: S, arg: u32 },
-    /// awaits the join handles of `child` (slot in the same command)
+    /// awaits the join handles of `child` (task identity in the same command)
     AwaitJoin { child: usize, m: S, fired: bool },
     /// join!(jh of child, req b) / select(jh of child, req b)
     AwaitJoinReq { child: usize, b: Src, m: S, fired: bool, select: bool },
@@ -108,6 +108,8 @@ pub enum RK {
 pub struct RTask {
     pub kind: RK,
     pub aborted: bool,
+    /// identity of the task within its command (slots are re-used, identities are not); 0 = not inserted yet
+    pub tid: usize,
 }
 
 #[derive(Clone, Debug, PartialEq, Eq, PartialOrd, Ord)]
@@ -127,6 +129,8 @@ pub struct RCmd {
     /// polled spuriously at the next settle (root-level stale wake)
     pub spur: bool,
     pub chans: Vec<Chan>,
+    /// task identities handed out so far
+    pub next_tid: usize,
 }
 
 pub struct Ctx<'a> {
@@ -182,7 +186,7 @@ enum Run {
 }
 
 fn task(kind: RK) -> RTask {
-    RTask { kind, aborted: false }
+    RTask { kind, aborted: false, tid: 0 }
 }
 
 impl RCmd {
@@ -244,7 +248,13 @@ impl RCmd {
         }
     }
 
-    fn insert(&mut self, t: RTask) -> usize {
+    fn tid_at(&self, slot: usize) -> usize {
+        self.tasks[slot].as_ref().map_or(0, |t| t.tid)
+    }
+
+    fn insert(&mut self, mut t: RTask) -> usize {
+        self.next_tid += 1;
+        t.tid = self.next_tid;
         if let Some(i) = self.tasks.iter().position(Option::is_none) {
             self.tasks[i] = Some(t);
             i
@@ -429,7 +439,7 @@ impl RCmd {
                     let mut wake = vec![];
                     for (j, other) in self.tasks.iter_mut().enumerate() {
                         if let Some(RTask { kind: RK::AwaitJoin { child, fired, .. } | RK::AwaitJoinReq { child, fired, .. }, .. }) = other {
-                            if *child == i && !*fired {
+                            if *child == t.tid && !*fired {
                                 *fired = true;
                                 wake.push(j);
                             }
@@ -593,11 +603,13 @@ impl RCmd {
                     let child = self.insert(task(RK::Fresh(P::Req(s))));
                     // mark it as a child request (same behaviour as Req)
                     self.ready.push(child);
+                    let child = self.tid_at(child);
                     t.kind = RK::AwaitJoin { child, m, fired: false };
                 }
                 P::JoinReq(s, u, m) | P::SelectJoinReq(s, u, m) => {
                     let child = self.insert(task(RK::Fresh(P::Req(s))));
                     self.ready.push(child);
+                    let child = self.tid_at(child);
                     let mut b = Src::new(u);
                     cx.eff(&mut b, Kind::Once, 0);
                     t.kind = RK::AwaitJoinReq { child, b, m, fired: false, select: matches!(p, P::SelectJoinReq(..)) };
@@ -614,6 +626,7 @@ impl RCmd {
                 P::AbortChild(s, u, m) => {
                     let child = self.insert(task(RK::StreamChild { a: Src::new(s) }));
                     self.ready.push(child);
+                    let child = self.tid_at(child);
                     let ab = self.insert(task(RK::Aborter { b: Src::new(u), target: child }));
                     self.ready.push(ab);
                     let jo = self.insert(task(RK::AwaitJoin { child, m, fired: false }));
@@ -958,7 +971,7 @@ impl RCmd {
                     Run::Pending
                 }
                 St::V(w) => {
-                    if let Some(Some(t)) = self.tasks.get_mut(*target) {
+                    if let Some(t) = self.tasks.iter_mut().flatten().find(|t| t.tid == *target) {
                         t.aborted = true;
                     }
                     cx.got(b.site, w);
